@@ -8,9 +8,11 @@ import (
 	"os"
 	"strings"
 
+	"github.com/ovh/kmip-go"
 	"github.com/ovh/kmip-go/ttlv"
 	mc "github.com/ovh/kmip-go/zz_verif/mc"
 	"verifharness/codecops"
+	"verifharness/msg"
 )
 
 
@@ -101,6 +103,82 @@ func codecHistories(n int) func() {
 	}
 }
 
+type pairEnc struct {
+	name    string
+	newEnc  func() ttlv.Encoder
+	marshal func(any) []byte
+}
+
+var pairEncs = map[string]pairEnc{
+	"ttlv": {"ttlv", ttlv.NewTTLVEncoder, ttlv.MarshalTTLV},
+	"xml":  {"xml", ttlv.NewXMLEncoder, ttlv.MarshalXML},
+	"json": {"json", ttlv.NewJSONEncoder, ttlv.MarshalJSON},
+	"text": {"text", func() ttlv.Encoder { return ttlv.NewTextEncoder() }, func(v any) []byte { return ttlv.MarshalText(v) }},
+}
+
+// codecPairs: the rich baseline request and response of every operation at the given versions form the alphabet; for
+// every ordered pair (A, B): (1) one encoder encodes A, is cleared and encodes B: both results must equal the result of
+// a fresh encoder from cold caches; (2) from cold caches, Marshal(A) then Marshal(B): B's result must equal B alone, and
+// the bytes returned for A must still be A's encoding after B was encoded.
+func codecPairs(encName string, versions []kmip.ProtocolVersion) func() {
+	return func() {
+		e := pairEncs[encName]
+		var ms []any
+		var names []string
+		for _, op := range msg.Operations() {
+			for _, v := range versions {
+				ms = append(ms, msg.BaselineRequest(op, v), msg.BaselineResponse(op, v))
+				n := fmt.Sprintf("%s@%d.%d", ttlv.EnumStr(op), v.ProtocolVersionMajor, v.ProtocolVersionMinor)
+				names = append(names, n+" request", n+" response")
+			}
+		}
+		refs := make([]string, len(ms))
+		for i, m := range ms {
+			ttlv.ZZVerifReset()
+			refs[i] = string(e.marshal(m))
+		}
+		pairs := 0
+		for i := range ms {
+			for j := range ms {
+				pairs++
+				enc := e.newEnc()
+				enc.Any(ms[i])
+				if got := string(enc.Bytes()); got != refs[i] {
+					mc.Failf("codec-result-depends-on-history: %s encoder, %s on a fresh encoder differs from the result from cold caches", e.name, names[i])
+					return
+				}
+				enc.Clear()
+				enc.Any(ms[j])
+				if got := string(enc.Bytes()); got != refs[j] {
+					mc.Failf("codec-result-depends-on-history: %s encoder reused after Clear: %s encoded after %s gives %s, a fresh encoder gives %s", e.name, names[j], names[i], short(showDoc(got)), short(showDoc(refs[j])))
+					return
+				}
+				ttlv.ZZVerifReset()
+				a := e.marshal(ms[i])
+				b := e.marshal(ms[j])
+				if string(b) != refs[j] {
+					mc.Failf("codec-result-depends-on-history: Marshal(%s) right after Marshal(%s) from cold caches gives %s (%s), alone it gives %s", names[j], names[i], short(showDoc(string(b))), e.name, short(showDoc(refs[j])))
+					return
+				}
+				if string(a) != refs[i] {
+					mc.Failf("codec-result-depends-on-history: the bytes returned by Marshal(%s) (%s) changed when %s was encoded afterwards", names[i], e.name, names[j])
+					return
+				}
+			}
+		}
+		mc.Note("pairs", fmt.Sprint(pairs))
+	}
+}
+
+func showDoc(s string) string {
+	for i := 0; i < len(s); i++ {
+		if s[i] < 9 || s[i] > 126 {
+			return fmt.Sprintf("%x", s)
+		}
+	}
+	return s
+}
+
 func codecScenario(threads [][]string) func() {
 	// inputs and references are computed once per process in a preliminary execution of their own
 	if codecRefs == nil {
@@ -167,6 +245,16 @@ func init() {
 	register("codec-hist-4", func() *Scenario {
 		return &Scenario{Name: "codec-hist-4", Doc: "all histories of <=4 codec operations from cold caches", Body: codecHistories(4), MaxSteps: 1000000000}
 	})
+	for _, en := range []string{"ttlv", "xml", "json", "text"} {
+		en := en
+		register("codec-pairs-"+en, func() *Scenario {
+			return &Scenario{Name: "codec-pairs-" + en, Doc: "all ordered pairs of the rich baseline messages (27 operations x request/response x versions 1.0, 1.4) on a reused cleared " + en + " encoder and as successive Marshal calls from cold caches",
+				Body: codecPairs(en, []kmip.ProtocolVersion{kmip.V1_0, kmip.V1_4}), MaxSteps: 2000000000}
+		})
+		register("codec-pairs5-"+en, func() *Scenario {
+			return &Scenario{Name: "codec-pairs5-" + en, Doc: "the same over versions 1.0..1.4", Body: codecPairs(en, msg.Versions), MaxSteps: 2000000000}
+		})
+	}
 	cs([]string{"enc-req10-ttlv"}, []string{"enc-req14-ttlv"})
 	cs([]string{"enc-req10-ttlv"}, []string{"dec-req12-ttlv"})
 	cs([]string{"enc-resp14-xml"}, []string{"enc-resp12-json"})
